@@ -23,14 +23,15 @@ import (
 func init() { register("C09", checkC09) }
 
 type c09Case struct {
-	Type     string     `json:"type"`
-	FrontEnd string     `json:"front_end"`
-	Compare  bool       `json:"compare"`
-	Scenario int        `json:"scenario"`
-	Fault    *sim.Fault `json:"fault,omitempty"`
-	Pend     int        `json:"pend,omitempty"`
-	WriteMem string     `json:"write_mem,omitempty"`
-	Setup    bool       `json:"setup,omitempty"` // step of the session set-up block before the configuration is retrieved
+	Type     string      `json:"type"`
+	FrontEnd string      `json:"front_end"`
+	Compare  bool        `json:"compare"`
+	Scenario int         `json:"scenario"`
+	Fault    *sim.Fault  `json:"fault,omitempty"`
+	Banner   *sim.Banner `json:"banner,omitempty"` // IOS: reload banner garbling the echo of the faulted command
+	Pend     int         `json:"pend,omitempty"`
+	WriteMem string      `json:"write_mem,omitempty"`
+	Setup    bool        `json:"setup,omitempty"` // step of the session set-up block before the configuration is retrieved
 	// From the reference run: class and text of the faulted step.
 	StepClass string `json:"step_class"`
 	StepRaw   string `json:"step_raw"`
@@ -42,6 +43,9 @@ func (c *c09Case) id() string {
 	f := "none"
 	if c.Fault != nil {
 		f = fmt.Sprintf("%s@%d", c.Fault.Kind, c.Fault.Ord)
+	}
+	if c.Banner != nil {
+		f += "+banner:" + c.Banner.Form
 	}
 	return fmt.Sprintf("%s/%s/cmp=%v/s%d/fault=%s/pend=%d/wm=%s", c.Type, c.FrontEnd, c.Compare, c.Scenario, f, c.Pend, c.WriteMem)
 }
@@ -58,6 +62,9 @@ func buildC09(c *c09Case) *liveCase {
 		if c.Fault.Kind == "stall" {
 			lc.Timeout = 1
 		}
+	}
+	if c.Banner != nil && lc.Cli != nil {
+		lc.Cli.Banners = []sim.Banner{*c.Banner}
 	}
 	if lc.HTTP != nil {
 		lc.HTTP.PendCount = c.Pend
@@ -203,6 +210,21 @@ func judgeC09(c *c09Case, lr *liveResult) (clause, what string) {
 			continue
 		}
 		if e.Ord > faultOrd && e.Class == "config-change" {
+			if c.Banner != nil && lr.Res.Exit != 0 {
+				// How late was the refusal noticed?
+				late, saved := 0, false
+				for _, x := range lr.Events {
+					// A joined two-command line is one packet.
+					if x.Ord > faultOrd && x.Class == "config-change" && !x.Joined {
+						late++
+					}
+					saved = saved || (x.Ord > faultOrd && x.Class == "save")
+				}
+				if late == 1 && !saved {
+					return "noticed-one-packet-late", fmt.Sprintf("change command %q was still sent after the refusal at step %d (%s), then the run aborted: %s",
+						e.Raw, faultOrd, c.StepRaw, firstLines(lr.Res.Stderr, 1))
+				}
+			}
 			return "change-after-fault", fmt.Sprintf("change command %q sent after fault %s at step %d (%s: %s)",
 				e.Raw, faultKind, faultOrd, c.StepClass, c.StepRaw)
 		}
@@ -319,6 +341,16 @@ func checkC09(tier, replay string) int {
 						Fault: &sim.Fault{Ord: e.Ord, Kind: kind}, StepClass: e.Class, StepRaw: e.Raw,
 						FirstOfJoined: firstOfJoined, Setup: setup})
 				}
+				if k.typ == "ios" && !k.cmp && e.Class == "config-change" && e.Reload == "pending" {
+					// The refused command is also the one whose echo a
+					// reload banner interrupts.
+					for _, form := range []string{"after-own-prompt", "after-line-no-prompt", "before-own-prompt", "inside"} {
+						cases = append(cases, &c09Case{Type: k.typ, FrontEnd: k.fe, Compare: k.cmp, Scenario: k.sc, Pend: 1,
+							Fault: &sim.Fault{Ord: e.Ord, Kind: "error"}, StepClass: e.Class, StepRaw: e.Raw,
+							Banner:        &sim.Banner{Ord: e.Ord, Form: form, Kind: "2:00", Chunk: "whole"},
+							FirstOfJoined: firstOfJoined, Setup: setup})
+					}
+				}
 			}
 			if k.typ == "ios" && !k.cmp {
 				for _, wm := range []string{"nvram-confirm", "too-large", "no-ok", "nvram-confirm-too-large", "nvram-confirm-open-failed", "busy-once", "busy-always"} {
@@ -386,6 +418,9 @@ func checkC09(tier, replay string) int {
 			}
 			if c.WriteMem != "" {
 				step = "save(write-memory-" + c.WriteMem + ")"
+			}
+			if c.Banner != nil {
+				step = c.StepClass + "+banner(" + c.Banner.Form + ")"
 			}
 			fam := clause
 			switch clause {
